@@ -95,7 +95,7 @@ def run(prog, tier) -> Result:
             detail = ""
             if fails:
                 qc, cmp2, out, want = fails[0]
-                detail = (f"{len(fails)} of 69 cells differ; first: quotient class {qc[0]} (mod 10 = {qc[1]}), "
+                detail = (f"{len(fails)} cells differ; first: quotient class {qc[0]} (mod 10 = {qc[1]}), "
                           f"2*rem {'<=>'[cmp2 + 1]} y: helper gives {(out[1] if out[0] == 'return' else out)!r}, "
                           f"definition of {mode} gives quot{'+1' if want else ''}")
             res.ob("R13.1", helper.qualname, f"{mode} ({how})", not fails, detail,
